@@ -1004,6 +1004,17 @@ func (ex *Exec) evCall(x *SCall, env *Env) Val {
 			es = sortOf(sl.Elem())
 		}
 		return TV(Select(ex.heapIn(env, memName(es), memSort(es)), SlRg(v.T)), nil)
+	case "unboxint":
+		// unboxint(x): the integer held by interface value x (as boxed by the engine)
+		v := arg(0)
+		ex.wantSort(v, SortIface, "unboxint")
+		fn := ex.boxFn(env.st, SortInt)
+		return TV(app(SortInt, "un"+fn, IfVal(v.T)), intT)
+	case "unboxstr":
+		v := arg(0)
+		ex.wantSort(v, SortIface, "unboxstr")
+		fn := ex.boxFn(env.st, SortBytes)
+		return TV(app(SortBytes, "un"+fn, IfVal(v.T)), types.Typ[types.String])
 	case "structval":
 		// the struct value behind an immutable package-level pointer variable
 		v := arg(0)
